@@ -1263,6 +1263,10 @@ func stringToTTL(token string) (uint32, bool) {
 		default:
 			return 0, false
 		}
+		// Stop before the accumulators can wrap around: 18446744073709551617 is not a TTL of 1.
+		if s > math.MaxUint32 || i > math.MaxUint32 {
+			return 0, false
+		}
 	}
 	if s+i > math.MaxUint32 {
 		return 0, false
